@@ -22,8 +22,6 @@ rm -f "$VERIF_DIR"/evidence/C20.part.*.json
 
 for e in "${ENGINES[@]}"; do
   for profile in release dev; do
-    # bevy's dev build is large; its C20 surface is compared across profiles only in thorough runs
-    if [ "$e" = bevy_sim ] && [ "$profile" = dev ] && [ "$tier" != thorough ]; then continue; fi
     flag=""; [ "$profile" = release ] && flag="--release"
     if ! (cd "$SIM" && cargo build --offline $flag -p "$e" >"$work/build.log" 2>&1); then
       echo "BUILD-ERROR package=$e profile=$profile"; grep -E "^error" -A6 "$work/build.log" | head -40; exit 2
@@ -34,7 +32,6 @@ done
 rc=0
 for e in "${ENGINES[@]}"; do
   for profile in release dev; do
-    if [ "$e" = bevy_sim ] && [ "$profile" = dev ] && [ "$tier" != thorough ]; then continue; fi
     dir=release; [ "$profile" = dev ] && dir=debug
     bin="$SIM/target/$dir/$e"
     det=0; [ "$profile" = release ] && det=32
